@@ -1,4 +1,34 @@
-(* placeholder so that the pipeline can be exercised; replaced by the real theorems *)
-From SV Require Import Names Rep.
-Theorem C09_placeholder : True. Proof. exact I. Qed.
-Print Assumptions C09_placeholder.
+(* C09 -- copies and derived complexes share no mutable state with their sources.
+   Theorem statements only; proofs in WorldProofs.v.  Proved: copy() / snap() (copy_new) and JSON
+   decoding produce a complex all of whose attribute dictionaries were allocated by itself, under
+   a fresh owner, leaving every older heap cell untouched; two complexes with different owners
+   share no dictionary.  Tested only: the contents of the copies, compose / flagComplex /
+   vietorisRipsComplex / Filtration.copy freshness, follow-up mutation scripts. *)
+From Coq Require Import String ZArith Bool Arith List.
+From SV Require Import Names NamesFacts ListFacts Rep Fresh Complex Atomic RepInv Reach Homology Filtration Gen World WorldProofs.
+
+Theorem C09_copy_is_fresh :
+  forall hp src uid hp' r' x, copy_new hp src uid = (hp', r', x) ->
+  owned r' /\ r_uid r' = uid /\ forall h, fst h <> uid -> heap_get hp' h = heap_get hp h.
+Proof. exact copy_new_fresh. Qed.
+Print Assumptions C09_copy_is_fresh.
+
+Theorem C09_decode_is_fresh :
+  forall js hp r hp' r' x, owned r -> decode hp r js = (hp', r', x) ->
+  owned r' /\ r_uid r' = r_uid r /\ forall h, fst h <> r_uid r -> heap_get hp' h = heap_get hp h.
+Proof. exact decode_owned. Qed.
+Print Assumptions C09_decode_is_fresh.
+
+Theorem C09_different_owners_share_nothing :
+  forall r1 r2 s1 s2 h, owned r1 -> owned r2 -> r_uid r1 <> r_uid r2 ->
+  In (s1, h) (r_attr r1) -> In (s2, h) (r_attr r2) -> False.
+Proof. exact owned_disjoint. Qed.
+Print Assumptions C09_different_owners_share_nothing.
+
+(* bulk adds (addSimplicesFrom, the engine of copy / snap / compose) keep a complex the owner of
+   all its dictionaries and copy the attribute contents into cells of that owner only *)
+Theorem C09_bulk_add_keeps_ownership :
+  forall rn src hp r st ns hp' r' st' x, owned r -> addFrom_loop hp r rn st src ns = (hp', r', st', x) ->
+  owned r' /\ r_uid r' = r_uid r /\ forall h, fst h <> r_uid r -> heap_get hp' h = heap_get hp h.
+Proof. exact addFrom_loop_owned. Qed.
+Print Assumptions C09_bulk_add_keeps_ownership.
